@@ -13,7 +13,14 @@ import (
 	"time"
 )
 
-const repoDir = "/repo"
+// repoDir: the tree under verification. LZ4VERIF_REPO points the engine at a scratch copy during
+// development (the registered commands never set it).
+var repoDir = func() string {
+	if d := os.Getenv("LZ4VERIF_REPO"); d != "" {
+		return d
+	}
+	return "/repo"
+}()
 
 func verifDir() string {
 	if d := os.Getenv("LZ4VERIF_HOME"); d != "" {
@@ -43,6 +50,24 @@ func main() {
 		os.Exit(cmdList(os.Args[2:]))
 	case "bounded":
 		os.Exit(cmdBounded(os.Args[2:]))
+	case "locals":
+		// print, for every function under contract, its declared names in source order
+		e, err := NewEngine(repoDir, verifDir(), "verif,noasm")
+		if err != nil {
+			fmt.Println("ENGINE-ERROR:", err)
+			os.Exit(2)
+		}
+		var keys []string
+		for k := range e.contracts {
+			keys = append(keys, k)
+		}
+		sort.Strings(keys)
+		for _, k := range keys {
+			if fn := e.funcs[k]; fn != nil {
+				fmt.Printf("%s\t%s\n", k, strings.Join(declaredNames(fn), " "))
+			}
+		}
+		os.Exit(0)
 	default:
 		fmt.Fprintln(os.Stderr, "unknown command", os.Args[1])
 		os.Exit(2)
@@ -299,10 +324,7 @@ func cmdCheck(args []string) int {
 		fmt.Fprintln(os.Stderr, "--property required")
 		return 2
 	}
-	if _, isBounded := boundedPlans[*prop]; isBounded {
-		// no functional contract on the block codecs: a bounded stand-in (labelled so in the evidence)
-		return cmdBounded([]string{"--property", *prop, "--tier", *tier})
-	}
+	_, isBounded := boundedPlans[*prop]
 	t0 := time.Now()
 	vd := verifDir()
 	seed := envInt("VERIF_SEED", 0)
@@ -322,6 +344,10 @@ func cmdCheck(args []string) int {
 		}
 	}
 	sort.Strings(keys)
+	if isBounded && len(keys) == 0 {
+		// no contract carries this property: a bounded stand-in alone (labelled so in the evidence)
+		return cmdBounded([]string{"--property", *prop, "--tier", *tier})
+	}
 	var all []*Obligation
 	var results []*funcResult
 	assum := map[string]bool{}
@@ -498,6 +524,24 @@ func cmdCheck(args []string) int {
 		level = "other"
 		cov["explanation"] = "some functions could not be bound to their contracts or no obligation was generated; see undecided"
 	}
+	if isBounded {
+		// A part of the property is under contract (proved above), the rest is covered by the bounded
+		// stand-in: both run, one evidence file (level exploration, the proved part as a sub-record).
+		fmt.Printf("property %s (proved part): %d functions, %d obligations, %d discharged, %d violations, %d undecided, canaries %d/%d, %.1fs\n",
+			*prop, len(fnames), nObl, nDis, violations, len(undecided), nCanSat, nCan, time.Since(t0).Seconds())
+		if nObl == 0 {
+			fmt.Println("ENGINE-ERROR: no obligations generated")
+			return 2
+		}
+		cov["assumptions"] = assumptions
+		cov["violations"] = violations
+		hybridProof = cov
+		rcB := cmdBounded([]string{"--property", *prop, "--tier", *tier})
+		if violations > 0 || rcB == 1 {
+			return 1
+		}
+		return rcB
+	}
 	ev := evidence{PropertyID: *prop, Tier: *tier, Seed: seed, Level: level, Coverage: cov, Assumptions: assumptions, WallS: round3(time.Since(t0).Seconds()), Violations: violations}
 	os.MkdirAll(filepath.Join(vd, "evidence"), 0o755)
 	data, _ := json.MarshalIndent(ev, "", " ")
@@ -513,6 +557,9 @@ func cmdCheck(args []string) int {
 	}
 	return 0
 }
+
+// hybridProof: the coverage record of the proved part of a property whose rest is a bounded stand-in.
+var hybridProof map[string]interface{}
 
 func round3(f float64) float64 { return float64(int(f*1000+0.5)) / 1000 }
 
